@@ -1966,14 +1966,50 @@ static int64_t eval2(Node *node, char ***label) {
 }
 
 static int64_t eval3(Node *node, char ***label) {
+  // The operands of a binary operator are evaluated left to right.
+  // In `eval(lhs) + eval(rhs)` the order is unspecified, and when
+  // neither operand is a constant the one evaluated first decides
+  // which diagnostic is printed, so that a chibicc built by chibicc
+  // reported another token than a chibicc built by gcc.
+  int64_t l = 0, r = 0;
+  long double fl = 0, fr = 0;
 
   switch (node->kind) {
   case ND_ADD:
-    return eval2(node->lhs, label) + eval(node->rhs);
   case ND_SUB:
-    return eval2(node->lhs, label) - eval(node->rhs);
+    l = eval2(node->lhs, label);
+    r = eval(node->rhs);
+    break;
   case ND_MUL:
-    return eval(node->lhs) * eval(node->rhs);
+  case ND_BITAND:
+  case ND_BITOR:
+  case ND_BITXOR:
+  case ND_SHL:
+  case ND_SHR:
+    l = eval(node->lhs);
+    r = eval(node->rhs);
+    break;
+  case ND_EQ:
+  case ND_NE:
+  case ND_LT:
+  case ND_LE:
+    if (is_flonum(node->lhs->ty)) {
+      fl = eval_double(node->lhs);
+      fr = eval_double(node->rhs);
+    } else {
+      l = eval(node->lhs);
+      r = eval(node->rhs);
+    }
+    break;
+  }
+
+  switch (node->kind) {
+  case ND_ADD:
+    return l + r;
+  case ND_SUB:
+    return l - r;
+  case ND_MUL:
+    return l * r;
   case ND_DIV:
   case ND_MOD: {
     int64_t lhs = eval(node->lhs);
@@ -1989,37 +2025,37 @@ static int64_t eval3(Node *node, char ***label) {
   case ND_NEG:
     return -eval(node->lhs);
   case ND_BITAND:
-    return eval(node->lhs) & eval(node->rhs);
+    return l & r;
   case ND_BITOR:
-    return eval(node->lhs) | eval(node->rhs);
+    return l | r;
   case ND_BITXOR:
-    return eval(node->lhs) ^ eval(node->rhs);
+    return l ^ r;
   case ND_SHL:
-    return eval(node->lhs) << eval(node->rhs);
+    return l << r;
   case ND_SHR:
     if (node->ty->is_unsigned && node->ty->size == 8)
-      return (uint64_t)eval(node->lhs) >> eval(node->rhs);
-    return eval(node->lhs) >> eval(node->rhs);
+      return (uint64_t)l >> r;
+    return l >> r;
   case ND_EQ:
     if (is_flonum(node->lhs->ty))
-      return eval_double(node->lhs) == eval_double(node->rhs);
-    return eval(node->lhs) == eval(node->rhs);
+      return fl == fr;
+    return l == r;
   case ND_NE:
     if (is_flonum(node->lhs->ty))
-      return eval_double(node->lhs) != eval_double(node->rhs);
-    return eval(node->lhs) != eval(node->rhs);
+      return fl != fr;
+    return l != r;
   case ND_LT:
     if (is_flonum(node->lhs->ty))
-      return eval_double(node->lhs) < eval_double(node->rhs);
+      return fl < fr;
     if (node->lhs->ty->is_unsigned)
-      return (uint64_t)eval(node->lhs) < eval(node->rhs);
-    return eval(node->lhs) < eval(node->rhs);
+      return (uint64_t)l < r;
+    return l < r;
   case ND_LE:
     if (is_flonum(node->lhs->ty))
-      return eval_double(node->lhs) <= eval_double(node->rhs);
+      return fl <= fr;
     if (node->lhs->ty->is_unsigned)
-      return (uint64_t)eval(node->lhs) <= eval(node->rhs);
-    return eval(node->lhs) <= eval(node->rhs);
+      return (uint64_t)l <= r;
+    return l <= r;
   case ND_COND:
     return eval_truth(node->cond) ? eval2(node->then, label) : eval2(node->els, label);
   case ND_COMMA:
